@@ -73,6 +73,9 @@ pub struct RrFail {
     pub sink: usize,
     pub op: Op,
     pub k: usize,
+    /// only this operation fails (persistently); the sink's other operations keep succeeding
+    #[serde(default)]
+    pub only_op: bool,
 }
 
 #[derive(Clone, Debug, Serialize, Deserialize)]
@@ -325,7 +328,7 @@ pub fn gen_script(rng: &mut Rng, flags: RrFlags) -> RrScript {
         let mut cands: Vec<usize> = (0..n_sinks).collect();
         rng.shuffle(&mut cands);
         for s in cands.into_iter().take(nf) {
-            fails.push(RrFail { sink: s, op: *rng.pick(&Op::ALL), k: rng.usize(0, 4) });
+            fails.push(RrFail { sink: s, op: *rng.pick(&Op::ALL), k: rng.usize(0, 4), only_op: rng.chance(1, 3) });
         }
     }
     RrScript { wake_driven, n_req, n_rep, boundaries, gates, fails, steps }
@@ -705,6 +708,7 @@ pub fn execute(prop: &str, sc: &RrScript, opts: &ExecOpts) -> Outcome {
         for f in &sc.fails {
             if f.sink < n_sinks {
                 w.sinks[f.sink].fail_at = Some((f.op, f.k));
+                w.sinks[f.sink].fail_sticky = !f.only_op;
             }
         }
     }
